@@ -23,7 +23,8 @@ RULE = ('Case = generated program (free grammar: normal end, terminal phase, ter
         'return value == (outcome is PASS); afterwards test.state is None, the uid is gone from TEST_INSTANCES, the openhtf '
         'logger handler list equals the baseline, re-execution works and yields an equally complete record; the overlapping '
         'call raises InvalidTestStateError and the first run is unaffected.  Non-trivial = non-normal exit path, or >=1 raising '
-        'callback, or a repeated/overlapping execute; distinct by canonical case.  Plus (scheduled): 2-3 threads call execute() on '
+        'callback (callbacks are functions, lambdas, bound methods, functools.partial or callable objects; failing ones raise a custom '
+        'exception, OSError, KeyError or UnicodeDecodeError), or a repeated/overlapping execute; distinct by canonical case.  Plus (scheduled): 2-3 threads call execute() on '
         'one Test at the same time, every single preemption at line granularity; each call returns True or raises '
         'InvalidTestStateError, one complete record per returning call, body invocations of two runs never overlap, the Test is '
         'clean afterwards (non-trivial there = effective preemption with a refused or second successful call).')
@@ -32,11 +33,18 @@ ASSUMPTIONS = ['Abort is delivered via Test.abort_from_sig_int() from a helper t
 _BASE = {'threads': None}
 
 
+# what a registered callback is (the last two have no __name__) and what a failing one raises
+CB_KINDS = ['function', 'lambda', 'method', 'partial', 'object']
+CB_EXCS = ['CallbackBoom', 'OSError', 'KeyError', 'UnicodeDecodeError']
+
+
 @st.composite
 def cases(draw):
   prog = draw(progs.programs(strict=False, max_nodes=8, maxdepth=2, with_test_start=True))
   ncb = draw(st.integers(0, 4))
   prog['opts']['callbacks'] = [draw(st.integers(0, 1)) for _ in range(ncb)]
+  prog['opts']['callback_kinds'] = [draw(st.sampled_from(CB_KINDS)) for _ in range(ncb)]
+  prog['opts']['callback_excs'] = [draw(st.sampled_from(CB_EXCS)) for _ in range(ncb)]
   phases = [n for n, _ in progs.walk(prog['nodes']) if n['t'] == 'phase']
   special = None
   if phases and draw(st.integers(0, 3)) == 0:
@@ -90,8 +98,23 @@ def check(case):
         st_ = test.state
         current['state_running_phase'] = None if st_ is None else st_.running_phase_state
       if raises:
-        raise progs.CallbackBoom('cb%d' % i)
-    return cb
+        exc = (prog['opts'].get('callback_excs') or ['CallbackBoom'] * (i + 1))[i]
+        if exc == 'CallbackBoom':
+          raise progs.CallbackBoom('cb%d' % i)
+        if exc == 'UnicodeDecodeError':
+          b'\xff'.decode('utf-8')
+        raise {'OSError': OSError, 'KeyError': KeyError}[exc]('cb%d' % i)
+
+    class Sink(object):
+      def __call__(self, rec):
+        return cb(rec)
+
+      def write(self, rec):
+        return cb(rec)
+
+    kind = (prog['opts'].get('callback_kinds') or ['function'] * (i + 1))[i]
+    import functools  # pylint: disable=g-import-not-at-top
+    return {'function': cb, 'lambda': lambda rec: cb(rec), 'method': Sink().write, 'partial': functools.partial(cb), 'object': Sink()}[kind]
 
   for i, raises in enumerate(cbspec):
     test.add_output_callbacks(mk(i, raises))
